@@ -1,8 +1,19 @@
 (** Executable models instantiated with the data of this run (for extraction). *)
-From RV Require Import Model.Base Model.Spirv Model.Decoder Model.Module Model.Inst Model.Parser.
-From RV Require Import Gen.SpirvData Gen.TraverseData Inst.Linked.
+From RV Require Import Model.Base Model.Spirv Model.Decoder Model.Module Model.Inst Model.Parser Model.Loader.
+From RV Require Import Gen.SpirvData Gen.TraverseData Gen.ReflectData Gen.LoaderData Inst.Linked.
 
 Definition c11_run_case := c11_run enums flags.
 Definition c15_eval_case := c15_eval defs.
 Definition run_parse_case := run_parse G.
 Definition run_asm_case := run_asm G.
+
+Definition feed_case (is : list inst) := load_insts op_enum preds loader_arms loader_finalize_checks is.
+Definition load_case (bytes : list N) := load_bytes G op_enum preds loader_arms loader_finalize_checks bytes.
+(** assembly of a module value: header, then every instruction in the order
+    the translated Module::assemble_into visits them *)
+Definition assemble_module (h : option header) (m : module inst) : list N :=
+  match h with Some hd => asm_header hd | None => [] end
+  ++ flat_map asm_inst (eval c15_fuel defs (VMod m) (TCall "assemble_into")).
+
+Definition feed_case_prefix (is : list inst) : bool :=
+  match feed op_enum preds loader_arms linit is with LCont _ => true | _ => false end.
